@@ -224,13 +224,17 @@ def run(ctx):
                 ctx.nontrivial("sweep", shape(r), repr(p)[:60])
             if k % 500 == 0:
                 ctx.sample({"recipe": r, "value": tag(lift(vals[0] if vals else genval(p, rng, M.top_scope({}))))})
-    # ---- (2) random compositions
+    # ---- (2) random compositions; the first ones of every worker are drawn directly from the special families of the grammar
     n = ctx.pick(4000, 120000) // ctx.nworkers
     nvals = ctx.pick(8, 16)
+    nfam = ctx.pick(12, 60)
     for i in range(n):
         g = Gen(rng, maxdepth=rng.choice([1, 2, 3, 3] if ctx.quick else [2, 3, 3, 4]), fragment="full")
         try:
-            r = g.recipe()
+            if i < 6 * nfam:
+                r = [g.select_family, lambda: g.lazy_family(2), g.region_family, g.root_family, lambda: g.bitstream(True), lambda: ["Sequence", g.struct(2, True, inseq=True)[1]]][i % 6]()
+            else:
+                r = g.recipe()
         except (M.ModelGap, M.MissingKey, M.Unsized):
             continue
         kw = dict(g.kw)
